@@ -106,10 +106,13 @@ RECURSIVE C05Rep(_, _)
 C05Rep(l, n) == IF n = 0 THEN Zero ELSE Add(l, Shl(C05Rep(l, n - 1), 64))
 
 (* Boxed operands of different precisions ("aw" = precision of the left operand is    *)
-(* logged only then): the documentation does not say which precision the result has, *)
-(* so the exact value, the value truncated to the left operand, or a panic pass.      *)
+(* logged only then): forms that return a new value must return the exact value (the  *)
+(* binary expansion of a | b includes the high limbs of a wider b); the assigning      *)
+(* forms update the receiver in place, whose precision they may keep: there the value  *)
+(* truncated to the receiver's precision passes as well.                               *)
+C05IsAssign(e) == \E i \in 1..(Len(e.form) - 7) : SubSeq(e.form, i, i + 7) = "_assign_"
 C05Bw(e, v) ==
-  IF C05Has(e, "aw") THEN e.k = "panic" \/ C05OkR(e, v) \/ C05OkR(e, Mod2k(v, e.aw))
+  IF C05Has(e, "aw") /\ C05IsAssign(e) THEN C05OkR(e, v) \/ C05OkR(e, Mod2k(v, e.aw))
   ELSE C05OkR(e, v)
 
 JudgeC05Bitwise(e) ==
